@@ -1702,6 +1702,7 @@ func runC17() {
 	c17ConfigOracle(rep)
 	c17DirectOracle(rep)
 	c17Tenants(rep)
+	c17Round7(rep)
 
 	rep.Extra["binary_occurrences"] = occ
 	rep.Extra["overloaded_occurrences"] = occOver
